@@ -209,6 +209,8 @@ class Models:
             v = d(argv[0])
             if v[0] in ('f', 'i'):
                 return one(v)
+        if re.match(r'(?:core::fmt::|std::fmt::)?Arguments(?:<.*?>)?::(from_str|new_const|new_v1|new)', c) or c.startswith('Arguments::'):
+            return one(('opaque', 'fmt::Arguments'))
         if c.startswith(('core::panicking::', 'std::rt::begin_panic', 'std::rt::panic_fmt', 'core::panicking::panic_fmt')):
             return [(None, ('panic', c))]
 
